@@ -107,6 +107,18 @@ def _seed(ctx, cfg):
                  A.AND(len(got) == 2, *[s == seed for _, s in got]) if len(got) == 2 else False)
     vc.explore(run, "seed")
     vc.flush()
+    # "a different seed yields different draws", on the real generator (no stub): pairs of seeds a user may well pick
+    def first_draws(s):
+        qucumber.set_random_seed(s, cpu=True, gpu=False, quiet=True)
+        return torch.randn(6, dtype=torch.double), torch.bernoulli(torch.full((16,), 0.5, dtype=torch.double))
+    keep_state = torch.get_rng_state()
+    try:
+        for s1, s2 in ((7, 8), (7, -7), (0, 1), (1234, 1234 + 2 ** 20), (7, 7 + 2 ** 32), (3, 3 + 2 ** 33)):
+            a, b = first_draws(s1), first_draws(s2)
+            ctx.holds("set_random_seed/different seeds give different draws[seeds=%d,%d]" % (s1, s2), not (torch.equal(a[0], b[0]) and torch.equal(a[1], b[1])),
+                      "identical normal and Bernoulli draws after seeding with %d and with %d" % (s1, s2))
+    finally:
+        torch.set_rng_state(keep_state)
     # default arguments: CPU generator only
     calls = []
     with mock.patch.object(torch, "manual_seed", lambda s: calls.append(("cpu", s))), mock.patch.object(torch.cuda, "manual_seed", lambda s: calls.append(("cuda", s))):
